@@ -1,1 +1,254 @@
 // verification harness (compiled into ntpd/src/daemon/nts_key_provider.rs under cfg(all(test, pendulum_project_ntpd_rs_verif)))
+// Runs the REAL key provider task (`spawn`) on real files and records what it does to them as a trace for
+// spec/Trace_KeySet.tla (events Start = load-or-fresh + first store, Cycle = rotate + store, Issue / Decode on the
+// published key set), plus a summary of the open behaviour observed at file level (was a longer old file
+// truncated? which mode does a created file get?) that parameterises the token-level replay in
+// harness/ntp_proto/keyset.rs.  Keys are projected to identities through the bytes found in the file.
+#![allow(clippy::all, dead_code)]
+
+use super::*;
+use serde_json::{Value, json};
+use std::io::Write;
+
+#[path = "/verif/harness/common/util.rs"]
+mod util;
+
+const M: u64 = 8;
+const HISTORY: usize = 1;
+const INTERVAL: usize = 2;
+
+fn tok_size(idx: usize) -> usize {
+    match idx {
+        0 => 8,
+        1 | 2 | 3 => 4,
+        _ => 64,
+    }
+}
+
+struct Obs {
+    path: String,
+    ids: Vec<(Vec<u8>, i64)>,
+    next_fresh: i64,
+    cookies: Vec<Vec<u8>>,
+}
+
+impl Obs {
+    fn id_of(&mut self, b: &[u8], assign: bool) -> i64 {
+        if let Some((_, id)) = self.ids.iter().find(|(x, _)| x == b) {
+            return *id;
+        }
+        if !assign {
+            return -99;
+        }
+        let id = self.next_fresh;
+        self.next_fresh += 1;
+        self.ids.push((b.to_vec(), id));
+        id
+    }
+    fn hv(x: u32) -> i64 {
+        if x == u32::MAX { 1000 } else { (x as i64).min(999) }
+    }
+    fn disk(&mut self, assign: bool) -> Value {
+        match std::fs::metadata(&self.path) {
+            Err(_) => json!({"exists": false, "mode": 0, "toks": []}),
+            Ok(meta) => {
+                use std::os::unix::fs::PermissionsExt;
+                let data = std::fs::read(&self.path).unwrap();
+                let mut toks = vec![];
+                let (mut pos, mut idx) = (0, 0);
+                while pos < data.len() {
+                    let size = tok_size(idx);
+                    if pos + size <= data.len() {
+                        let b = &data[pos..pos + size];
+                        let v = match idx {
+                            0 => 0,
+                            1 => (u32::from_be_bytes(b.try_into().unwrap()) as u64 % M) as i64,
+                            2 | 3 => Self::hv(u32::from_be_bytes(b.try_into().unwrap())),
+                            _ => self.id_of(b, assign),
+                        };
+                        toks.push(json!({"v": v, "part": false}));
+                    } else {
+                        toks.push(json!({"v": -7, "part": true}));
+                    }
+                    pos += size;
+                    idx += 1;
+                }
+                json!({"exists": true, "mode": meta.permissions().mode() & 0o7777, "toks": toks})
+            }
+        }
+    }
+    fn st(&mut self, up: bool, usable: bool) -> Value {
+        let d = self.disk(up);
+        json!({"up": up, "memobs": false, "keys": [], "offset": 0, "primary": 0, "disk": d, "usable": usable,
+               "ncookies": self.cookies.len()})
+    }
+}
+
+fn same_cookie(a: &ntp_proto::DecodedServerCookie, b: &ntp_proto::DecodedServerCookie) -> bool {
+    a.s2c.key_bytes() == b.s2c.key_bytes() && a.c2s.key_bytes() == b.c2s.key_bytes()
+}
+
+/// can the published key set issue a cookie and decode it again?
+fn usable(ks: &KeySet) -> bool {
+    matches!(util::catch(|| {
+        let c = ks.encode_cookie_pub(&ntp_proto::test_cookie());
+        ks.decode_cookie_pub(&c).map(|d| same_cookie(&d, &ntp_proto::test_cookie())).unwrap_or(false)
+    }), Ok(true))
+}
+
+/// what a start of the daemon would make of the file now, relative to the published set
+fn load_view(path: &str, published: &KeySet) -> String {
+    let r = util::catch(|| {
+        let mut input = File::open(path).ok()?;
+        KeySetProvider::load(&mut input, HISTORY).ok().map(|x| x.0)
+    });
+    match r {
+        Err(_) => "panic".into(),
+        Ok(None) => "err".into(),
+        Ok(Some(p)) => {
+            let l = p.get();
+            let r = util::catch(|| {
+                let c1 = l.encode_cookie_pub(&ntp_proto::test_cookie());
+                let c2 = published.encode_cookie_pub(&ntp_proto::test_cookie());
+                c1[0..4] == c2[0..4] && published.decode_cookie_pub(&c1).is_ok() && l.decode_cookie_pub(&c2).is_ok()
+            });
+            match r {
+                Err(_) => "unusable".into(),
+                Ok(true) => "same".into(),
+                Ok(false) => "other".into(),
+            }
+        }
+    }
+}
+
+fn craft(path: &str, mode: u32, offset: u32, primary: u32, len: u32, keys: &[Vec<u8>], time: u64, extra: usize) {
+    use std::os::unix::fs::OpenOptionsExt;
+    let _ = std::fs::remove_file(path);
+    let mut f = OpenOptions::new().create(true).truncate(true).write(true).mode(mode).open(path).unwrap();
+    f.write_all(&time.to_be_bytes()).unwrap();
+    f.write_all(&offset.to_be_bytes()).unwrap();
+    f.write_all(&primary.to_be_bytes()).unwrap();
+    f.write_all(&len.to_be_bytes()).unwrap();
+    for k in keys {
+        f.write_all(k).unwrap();
+    }
+    f.write_all(&vec![0xA5u8; extra]).unwrap();
+    // the mode of an existing file is subject to the umask at creation: set it exactly
+    use std::os::unix::fs::PermissionsExt;
+    std::fs::set_permissions(path, std::fs::Permissions::from_mode(mode)).unwrap();
+}
+
+struct Scenario {
+    name: &'static str,
+    /// (mode, offset, primary, len, nkeys, extra bytes) of a pre-existing file
+    file: Option<(u32, u32, u32, u32, usize, usize)>,
+    cycles: usize,
+}
+
+async fn run_scenario(sc: &Scenario, dir: &str, seed: u64, out: &mut util::NdjsonOut, summary: &mut serde_json::Map<String, Value>) {
+    let path = format!("{dir}/{}.dat", sc.name);
+    let mut rng = util::Rng::new(seed ^ 0x6e74);
+    let mut obs = Obs { path: path.clone(), ids: vec![], next_fresh: 0, cookies: vec![] };
+    let _ = std::fs::remove_file(&path);
+    if let Some((mode, offset, primary, len, nkeys, extra)) = sc.file {
+        let keys: Vec<Vec<u8>> = (0..nkeys).map(|_| rng.bytes(64)).collect();
+        for (i, k) in keys.iter().enumerate() {
+            obs.ids.push((k.clone(), 100 + i as i64));
+        }
+        let now = std::time::SystemTime::now().duration_since(std::time::SystemTime::UNIX_EPOCH).unwrap().as_secs();
+        craft(&path, mode, offset, primary, len, &keys, now, extra);
+    }
+    let before_len = std::fs::metadata(&path).map(|m| m.len()).unwrap_or(0);
+    out.put(&json!({"ev": "reset", "scenario": sc.name, "st": obs.st(false, true)}));
+    let cfg = KeysetConfig { stale_key_count: HISTORY, key_rotation_interval: INTERVAL, key_storage_path: Some(path.clone()) };
+    let mut rx = spawn(cfg).await;
+    let mut raced = false;
+    for step in 0..=sc.cycles {
+        // each publication follows a completed store
+        rx.changed().await.expect("key provider task ended");
+        let ks = rx.borrow_and_update().clone();
+        let u = usable(&ks);
+        let load = load_view(&path, &ks);
+        let st = obs.st(true, u);
+        let t = if step == 0 { "Start" } else { "Cycle" };
+        // Start: did the task restore the file's keys?  (visible in the file it stored)
+        let res = if step == 0 {
+            let restored = st["disk"]["toks"].as_array().unwrap().iter().skip(4).any(|t| t["v"].as_i64().unwrap() >= 100);
+            if restored { "loaded" } else { "fresh" }
+        } else {
+            "-"
+        };
+        raced |= rx.has_changed().unwrap_or(true);
+        if step == 0 {
+            summary.insert(format!("{}_len_before", sc.name), json!(before_len));
+            summary.insert(format!("{}_len_after", sc.name), json!(std::fs::metadata(&path).map(|m| m.len()).unwrap_or(0)));
+            summary.insert(format!("{}_mode", sc.name), st["disk"]["mode"].clone());
+        }
+        out.put(&json!({"ev": "step", "act": {"t": t}, "st": st, "out": {"res": res, "w": -1000, "k": -1000, "load": load}, "panic": ""}));
+        // cookies issued earlier against the set now published
+        for c in 0..obs.cookies.len() {
+            let ck = obs.cookies[c].clone();
+            let r = match util::catch(|| ks.decode_cookie_pub(&ck)) {
+                Err(p) => {
+                    out.put(&json!({"ev": "step", "act": {"t": "Decode", "c": c + 1, "var": "intact"}, "st": obs.st(true, u),
+                                    "out": {"res": "-", "w": -1000, "k": -1000, "load": "-"}, "panic": p}));
+                    continue;
+                }
+                Ok(Ok(d)) => if same_cookie(&d, &ntp_proto::test_cookie()) { "ok" } else { "wrong" },
+                Ok(Err(_)) => "err",
+            };
+            out.put(&json!({"ev": "step", "act": {"t": "Decode", "c": c + 1, "var": "intact"}, "st": obs.st(true, u),
+                            "out": {"res": r, "w": -1000, "k": -1000, "load": "-"}, "panic": ""}));
+        }
+        if u {
+            let c = ks.encode_cookie_pub(&ntp_proto::test_cookie());
+            let w = (u32::from_be_bytes(c[0..4].try_into().unwrap()) as u64 % M) as i64;
+            obs.cookies.push(c);
+            out.put(&json!({"ev": "step", "act": {"t": "Issue"}, "st": obs.st(true, u),
+                            "out": {"res": "cookie", "w": w, "k": -1000, "load": "-"}, "panic": ""}));
+        }
+        raced |= rx.has_changed().unwrap_or(true);
+    }
+    if raced {
+        summary.insert("raced".into(), json!(true));
+    }
+    drop(rx);
+}
+
+async fn observe(job: &Value) {
+    let dir = job["dir"].as_str().unwrap();
+    std::fs::create_dir_all(dir).unwrap();
+    let seed = job["seed"].as_u64().unwrap_or(0);
+    let mut out = util::NdjsonOut::create(job["output"].as_str().unwrap());
+    let mut summary = serde_json::Map::new();
+    let top = (0u32).wrapping_sub(2); // id_offset 2^32-2: the wire id wraps at the first rotation
+    let scenarios = [
+        Scenario { name: "fresh", file: None, cycles: 1 },
+        Scenario { name: "restore", file: Some((0o600, top, 2, 3, 3, 0)), cycles: 1 },
+        Scenario { name: "garbage", file: Some((0o644, 7, 5, 1, 1, 300)), cycles: 0 },
+        Scenario { name: "primary_eq_len", file: Some((0o600, 3, 1, 1, 1, 0)), cycles: 0 },
+        Scenario { name: "short_keys", file: Some((0o600, 3, 1, 3, 2, 40)), cycles: 0 },
+    ];
+    let only = job["scenarios"].as_array().map(|a| a.iter().map(|x| x.as_str().unwrap().to_string()).collect::<Vec<_>>());
+    for sc in &scenarios {
+        if only.as_ref().map(|o| o.iter().any(|n| n == sc.name)).unwrap_or(true) {
+            run_scenario(sc, dir, seed, &mut out, &mut summary).await;
+        }
+    }
+    out.finish();
+    std::fs::write(job["summary"].as_str().unwrap(), serde_json::to_string(&Value::Object(summary)).unwrap()).unwrap();
+}
+
+#[test]
+fn verif_nts_key_provider() {
+    let job = util::job();
+    let rt = tokio::runtime::Builder::new_current_thread().enable_all().build().unwrap();
+    rt.block_on(async {
+        match job["mode"].as_str().unwrap() {
+            "observe" => observe(&job).await,
+            m => panic!("unknown mode {m}"),
+        }
+    });
+    // the provider tasks sleep in blocking threads until their next rotation; do not wait for them
+    rt.shutdown_background();
+}
